@@ -1,6 +1,19 @@
 package localstatequery
 
-import "github.com/blinklabs-io/gouroboros/protocol"
+import (
+	"github.com/blinklabs-io/gouroboros/connection"
+	"github.com/blinklabs-io/gouroboros/protocol"
+)
 
 // Overlay shim: the protocol's initial state (the value client.go/server.go pass as InitialState).
 func VerifInitialState() protocol.State { return stateIdle }
+
+// VerifNewClient: the real client, not started, with the send queue Start() would create.
+func VerifNewClient(id connection.ConnectionId) *Client {
+	c := NewClient(protocol.ProtocolOptions{ConnectionId: id, ErrorChan: make(chan error, 10)}, nil)
+	protocol.VerifMakeSendQueue(c.Protocol)
+	return c
+}
+
+// VerifClientHandle passes a server message to the client's message handler.
+func VerifClientHandle(c *Client, msg protocol.Message) error { return c.messageHandler(msg) }
